@@ -126,13 +126,16 @@ Sieve::iterator::~iterator()
 unsigned Sieve::iterator::next_prime()
 {
     std::vector<unsigned> &_primes = sieve_primes();
-    if (_index >= _primes.size()) {
-        unsigned extend_to = _primes[_index - 1] * 2;
+    // the cache may have been cleared since the last call: grow it until it
+    // holds the prime number _index again
+    while (_index >= _primes.size()) {
+        unsigned extend_to = _primes.back() * 2;
         if (_limit > 0 and _limit < extend_to) {
             extend_to = _limit;
         }
+        const size_t before = _primes.size();
         _extend(extend_to);
-        if (_index >= _primes.size()) { // the next prime is greater than _limit
+        if (_primes.size() == before) { // the next prime is greater than _limit
             return _limit + 1;
         }
     }
